@@ -343,7 +343,12 @@ pub fn build(
                 let mut function = function.clone();
                 let original_name = function.name.clone();
                 if associated_functions_used_names.contains(&original_name) {
-                    function.name = format!("{}_{}", base_name, original_name);
+                    // raw identifiers lose their `r#` when they become a part of a longer name
+                    function.name = format!(
+                        "{}_{}",
+                        base_name.trim_start_matches("r#"),
+                        original_name.trim_start_matches("r#")
+                    );
                 }
                 // Only functions with a receiver can be forwarded to the base sub-object;
                 // one without a receiver keeps its own body, as there is no `self` to go through.
